@@ -206,7 +206,11 @@ class Report:
             if key not in printed:
                 printed.add(key)
                 print(f"KNOWN-FINDING: property={self.prop} {k.get('what')}")
-        os.makedirs(os.path.join(REPLAY_DIR, self.prop), exist_ok=True)
+        rdir = os.path.join(REPLAY_DIR, self.prop)
+        os.makedirs(rdir, exist_ok=True)
+        for f in os.listdir(rdir):   # replay artefacts always describe the latest run only
+            if f.endswith(".json"):
+                os.unlink(os.path.join(rdir, f))
         for v in new:
             h = hashlib.sha1(v["signature"].encode()).hexdigest()[:12]
             path = os.path.join(REPLAY_DIR, self.prop, f"{h}.json")
